@@ -265,7 +265,13 @@ func genSupplyHist(r *Rng, i int, tier string) []string {
 func runSupplyHist(t *testing.T, in []string) string {
 	nv, _ := strconv.Atoi(in[0])
 	na, _ := strconv.Atoi(in[1])
-	c, err := NewChain(ChainCfg{NVals: nv, NAccts: na})
+	cfg := ChainCfg{NVals: nv, NAccts: na}
+	if len(in) > 3 { // optional: the staking module's validator cap
+		if m, err := strconv.Atoi(in[3]); err == nil && m > 0 {
+			cfg.MaxValidators = uint32(m)
+		}
+	}
+	c, err := NewChain(cfg)
 	if err != nil {
 		return "err:newchain:" + shortLog(err.Error())
 	}
@@ -494,5 +500,24 @@ func genNoHaltHist(r *Rng, i int, tier string) []string {
 	add("blk %d", 3*86400000+5)
 	blk()
 	blk()
-	return []string{fmt.Sprint(nv), fmt.Sprint(na), strings.Join(ops, ";")}
+	// a validator cap of 2 lets newcomers displace bonded validators (who then hold no EVM address for a few blocks):
+	// a ladder of growing delegations, one per block, replaces the whole bonded set within two blocks
+	maxv := r.Pick(100, 100, 100, 100, 2)
+	if maxv == 2 && nv >= 3 {
+		var ladder []string
+		perm := make([]int, nv)
+		for j := range perm {
+			perm[j] = j
+		}
+		for j := nv - 1; j > 0; j-- {
+			k := r.Intn(j + 1)
+			perm[j], perm[k] = perm[k], perm[j]
+		}
+		for j, v := range perm {
+			ladder = append(ladder, fmt.Sprintf("del a%d v%d %d", j%na, v, int64(j+1)*10000000), fmt.Sprintf("blk %d", r.Pick(1000, 5000)))
+		}
+		at := 3 + r.Intn(len(ops)-3)
+		ops = append(ops[:at], append(ladder, ops[at:]...)...)
+	}
+	return []string{fmt.Sprint(nv), fmt.Sprint(na), strings.Join(ops, ";"), fmt.Sprint(maxv)}
 }
